@@ -259,7 +259,7 @@ func c09(c *Ctx) {
 	p, r := c.K1(), c.R
 	// R7: values given to When are compared exactly (C18.R5): no integer is compared through float64
 	if !c.importing {
-		importSibling(c, "C18", "C09.R7", func(rule string) bool { return rule == "C18.R5" || rule == "C18.R4" })
+		importSibling(c, "C18", "C09.R7", func(rule string) bool { return rule == "C18.R5" || rule == "C18.R4" || rule == "C18.R1" })
 	}
 	r.Expl = "Structural clauses behind 'stubbed values are typed as the function declares': the nil→typed-zero arm of the value converter tests every nilable kind the property names (pointer, interface, slice, map, chan, func) under r==nil; Zero/New are typed by the declared type; the unsafe retyping helper and every pass-through return are dominated by a size-equality check; conversion errors are never dropped by callers; the back-conversion maps exactly zero pointer/interface values to untyped nil. DeepEqual-level fidelity of delivered values is not decided."
 	r.RuleText = "one obligation per (rule, converter function / call site / return edge)"
@@ -819,6 +819,32 @@ func checkSizeGuards(p *Prog, r *Report, rule string, convs []*ssa.Function) []*
 			}
 			r.Check(okSz, rule, "unsafe retyping "+shortName(cf)+" called from "+shortName(cs.Caller), p.Pos(posOf(cs.Instr)), "retyping dominated by size equality",
 				"the unsafe retyping helper is reachable without a dominating size-equality check: a stand-in of different size is reinterpreted")
+			// what selects the stand-in path is the kind of the DECLARED type (struct / pointer to struct), never the kind of the
+			// supplied value: the kind tests on the way to the retyping are tests of a reflect.Type
+			wrong := ""
+			seenB := map[*ssa.BasicBlock]bool{}
+			var walk func(b *ssa.BasicBlock, depth int)
+			walk = func(b *ssa.BasicBlock, depth int) {
+				if seenB[b] || depth > 8 {
+					return
+				}
+				seenB[b] = true
+				for _, pr := range b.Preds {
+					if iff, ok := pr.Instrs[len(pr.Instrs)-1].(*ssa.If); ok {
+						if _, kv, isK := kindTest(iff.Cond); isK {
+							if kc, isCall := resolveLocal(kv).(*ssa.Call); isCall && !kc.Call.IsInvoke() && calleeName(kc.Common()) == "(reflect.Value).Kind" {
+								wrong = p.Pos(posOf(iff))
+							}
+						}
+					}
+					if pr.Dominates(b) || len(b.Preds) > 1 {
+						walk(pr, depth+1)
+					}
+				}
+			}
+			walk(cs.Instr.Block(), 0)
+			r.Check(wrong == "", rule, "stand-in path of "+shortName(cs.Caller)+" is selected by the declared type", p.Pos(posOf(cs.Instr)), "kind tests on the way to the retyping are on a reflect.Type",
+				"the stand-in (retyping) path is selected by the kind of the supplied value (test at "+wrong+"): a struct value given for an interface-typed result is sent through the size check and rejected (or reinterpreted) instead of being boxed with its dynamic type")
 		}
 	}
 	return casters
